@@ -2,6 +2,7 @@ package gen
 
 import (
 	"fmt"
+	"math"
 
 	"verif/internal/model"
 	"verif/internal/mon"
@@ -13,7 +14,13 @@ type ExprCfg struct {
 	PrimLits  bool    // only literals expressible as Cedar primaries (bool, long, string, entity); others become constructor calls / set / record nodes
 	NoVars    bool    // closed expressions only
 	ExtraAttr []string
+	SafeDT        bool // never spell datetime literals below cedar-go's (known, recorded) lower parsing bound
+	WellFormedExt bool // no unknown functions / wrong arities (texts must stay inside the grammar)
+	NoBadLits     bool // constructor strings are always well formed
 }
+
+// DatetimeLowBound is -292275055-05-17T16:47:04.192Z, the smallest datetime cedar-go parses.
+const DatetimeLowBound = -9223372036768375808
 
 var DefaultCfg = ExprCfg{PIll: 0.06}
 
@@ -84,7 +91,10 @@ var badLiterals = []string{"", "1", "1.", ".5", "1.23456", "+1.0", "1e3", "--1.0
 func (g *G) extLit(fn string, v model.Val) *model.Expr {
 	r := g.R
 	var s string
-	if r.P(0.12) {
+	if g.Cfg.SafeDT && fn == "datetime" && v.I < DatetimeLowBound {
+		v.I = DatetimeLowBound + (v.I - math.MinInt64)
+	}
+	if !g.Cfg.NoBadLits && r.P(0.12) {
 		s = mon.Pick(r, badLiterals)
 	} else {
 		switch fn {
@@ -310,7 +320,7 @@ func (g *G) Expr(depth int, k model.Kind) *model.Expr {
 			// constructor applied to a non-literal / ill-typed argument
 			return model.Ext(extCtor[k], g.Expr(d, g.kindOr(model.KString)))
 		}
-		if r.P(0.05) {
+		if !g.Cfg.WellFormedExt && r.P(0.05) {
 			// arity / unknown function
 			switch r.Intn(3) {
 			case 0:
@@ -370,3 +380,60 @@ func NormPattern(in []model.PatElem) []model.PatElem {
 }
 
 func BadLiterals() []string { return badLiterals }
+
+var annotKeys = []string{"id", "a", "b", "advice", "if", "principal", "_x", "A1"}
+
+func RandScope(r *R, which int) model.Scope {
+	// which: 0 principal, 1 action, 2 resource
+	switch r.Intn(6) {
+	case 0:
+		return model.Scope{Kind: model.ScEq, Ent: RandUID(r)}
+	case 1:
+		return model.Scope{Kind: model.ScIn, Ent: RandUID(r)}
+	case 2:
+		if which == 1 {
+			n := r.Intn(4)
+			s := model.Scope{Kind: model.ScInSet}
+			for i := 0; i < n; i++ {
+				s.Ents = append(s.Ents, RandUID(r))
+			}
+			return s
+		}
+		return model.Scope{Kind: model.ScIs, Type: mon.Pick(r, EntityTypes)}
+	case 3:
+		if which != 1 {
+			return model.Scope{Kind: model.ScIsIn, Type: mon.Pick(r, EntityTypes), Ent: RandUID(r)}
+		}
+	}
+	return model.Scope{Kind: model.ScAll}
+}
+
+// RandPolicy draws a policy: effect x scope forms x when/unless lists x annotations.
+func RandPolicy(r *R, cfg ExprCfg, depth int) *model.Policy {
+	p := &model.Policy{Permit: r.Bool(), P: RandScope(r, 0), A: RandScope(r, 1), R: RandScope(r, 2)}
+	if p.A.Kind == model.ScEq || p.A.Kind == model.ScIn {
+		if r.P(0.7) {
+			p.A.Ent = model.Ent("Action", mon.Pick(r, []string{"a", "b", "view", "grp"}))
+		}
+	}
+	na := r.Intn(3)
+	seen := map[string]bool{}
+	for i := 0; i < na; i++ {
+		k := mon.Pick(r, annotKeys)
+		if seen[k] {
+			continue
+		}
+		seen[k] = true
+		p.Annots = append(p.Annots, model.Annot{Key: k, Val: RandString(r)})
+	}
+	g := &G{R: r, Cfg: cfg}
+	nc := r.Intn(3)
+	for i := 0; i < nc; i++ {
+		k := model.KBool
+		if r.P(cfg.PIll) {
+			k = RandKind(r)
+		}
+		p.Conds = append(p.Conds, model.Cond{When: r.P(0.7), Body: g.Expr(1+r.Intn(depth), k)})
+	}
+	return p
+}
